@@ -111,6 +111,12 @@ def _create_files(  # noqa: C901, PLR0912, PLR0913
         if links is None and isinstance(storage_obj, ObjectStorage):
             links = storage_obj.odb.cache_types
 
+        # NOTE: when linking, transfer() leaves a file that already exists at the
+        # destination alone, so we can't vouch for those in the state below.
+        existed = set()
+        if state and isinstance(fs, LocalFileSystem):
+            existed = {dest for dest in dest_paths if fs.exists(dest)}
+
         transfer(
             src_fs,
             list(src_paths),
@@ -127,7 +133,7 @@ def _create_files(  # noqa: C901, PLR0912, PLR0913
         if state and isinstance(fs, LocalFileSystem):
             _infos: list[tuple[str, HashInfo, dict]] = []
             for entry, _, dest_path in args:
-                if not entry.hash_info:
+                if not entry.hash_info or dest_path in existed:
                     continue
                 try:
                     _infos.append((dest_path, entry.hash_info, fs.info(dest_path)))
